@@ -9,6 +9,14 @@
 //     same function raises the value's dirty flag (isDirty = true / … || isDirty) or re-Puts it.
 //   - persisted parameters: the key constants and that the flush functions Put them and the
 //     constructors Get them (_vamanaMaxNodeId, _numDocuments; the quantiser keys are in FactsC04).
+//   - persist order: the sequence of mutate / fit / flush calls of the index write paths that train a
+//     quantiser (vamana insertUpdateDelete, flat InsertUpdateDelete) in program order — the model's
+//     transaction is "program; Flush": whatever rewrites cached values must come before the flush.
+//   - lifetimes of bucket memory: every variable bound to a byte slice handed out by the storage
+//     layer (result of bucket.Get, key / value parameters of ForEach / PrefixScan / RangeScan
+//     callbacks, and parameters of same-file functions they are passed to) in the files whose values
+//     live in shared caches, and whether any use of it lets the slice escape un-copied (assigned,
+//     returned, stored, passed to a function not known to copy or decode).
 //
 // Anything it cannot find is a hard error.
 package main
@@ -297,6 +305,298 @@ func extractMutations(repo string, rels []string) []mutFact {
 	return out
 }
 
+// ---------------------------------------------------------------- persist order
+
+// phasesOf: the persist-relevant calls of a function in source order: "mutate" (the index changes
+// cached values), "fit" (the vector store trains and re-encodes cached values in place), "flush"
+func phasesOf(fd *ast.FuncDecl) []string {
+	var out []string
+	ast.Inspect(fd.Body, func(n ast.Node) bool {
+		c, ok := n.(*ast.CallExpr)
+		if !ok {
+			return true
+		}
+		name := ""
+		switch f := c.Fun.(type) {
+		case *ast.SelectorExpr:
+			name = f.Sel.Name
+		case *ast.Ident:
+			name = f.Name
+		}
+		switch name {
+		case "Fit":
+			out = append(out, "fit")
+		case "flush", "Flush":
+			out = append(out, "flush")
+		case "Set", "Delete", "Put", "insertSinglePoint", "insertWorker", "removeInboundEdges", "robustPrune", "pruneDeleteNeighbour":
+			if len(out) == 0 || out[len(out)-1] != "mutate" {
+				out = append(out, "mutate")
+			}
+		}
+		return true
+	})
+	return out
+}
+
+// ---------------------------------------------------------------- lifetimes of bucket memory
+
+type readFact struct {
+	file, fn, v string
+	aliased     bool
+	how         string
+}
+
+// functions known to copy or decode their byte-slice argument (argument index; -1 = any)
+var copying = map[string]int{
+	"len": -1, "cap": -1, "string": -1,
+	"BytesToFloat32": 0, "BytesToEdgeList": 0, "BytesToUint64": 0, "BytesToSingleFloat32": 0,
+	"NodeIdFromKey": 0, "IdFromKey": 0, "fromByteSortable": 0,
+	"NewReader": 0, "Clone": 0, "Equal": -1, "Compare": -1, "HasPrefix": -1, "Unmarshal": 0,
+}
+
+func exprText(e ast.Expr) string {
+	switch v := e.(type) {
+	case *ast.Ident:
+		return v.Name
+	case *ast.SelectorExpr:
+		return exprText(v.X) + "." + v.Sel.Name
+	case *ast.CallExpr:
+		return exprText(v.Fun) + "()"
+	case *ast.StarExpr:
+		return exprText(v.X)
+	case *ast.ParenExpr:
+		return exprText(v.X)
+	}
+	return "?"
+}
+
+func isBucketExpr(e ast.Expr) bool { return strings.Contains(strings.ToLower(exprText(e)), "bucket") }
+
+func calleeName(c *ast.CallExpr) string {
+	switch f := c.Fun.(type) {
+	case *ast.SelectorExpr:
+		return f.Sel.Name
+	case *ast.Ident:
+		return f.Name
+	case *ast.IndexExpr: // generic instantiation f[T](…)
+		if id, ok := f.X.(*ast.Ident); ok {
+			return id.Name
+		}
+	}
+	return ""
+}
+
+// classify one use of a borrowed slice; path = the ancestors of the identifier, innermost last
+func classifyUse(id *ast.Ident, path []ast.Node, local map[string]*ast.FuncDecl, taintParam func(fn string, i int)) (aliased bool, how string) {
+	var child ast.Node = id
+	for i := len(path) - 1; i >= 0; i-- {
+		switch p := path[i].(type) {
+		case *ast.ParenExpr:
+			child = p
+			continue
+		case *ast.SliceExpr:
+			if p.X == child { // a sub-slice is still the same memory
+				child = p
+				continue
+			}
+			return false, "" // used as an index bound
+		case *ast.IndexExpr:
+			if i > 0 && p.X == child {
+				if u, ok := path[i-1].(*ast.UnaryExpr); ok && u.Op == token.AND {
+					return true, "address of an element taken (unsafe re-slicing)"
+				}
+			}
+			return false, "" // element read (or used as an index)
+		case *ast.BinaryExpr:
+			return false, "" // comparison (== nil, != nil)
+		case *ast.UnaryExpr:
+			return false, ""
+		case *ast.RangeStmt:
+			if p.X == child {
+				return false, "" // ranging copies the elements
+			}
+			return false, ""
+		case *ast.CallExpr:
+			name := calleeName(p)
+			argi := -1
+			for k, a := range p.Args {
+				if a == child {
+					argi = k
+				}
+			}
+			if argi < 0 {
+				return false, "" // the callee expression itself
+			}
+			if want, ok := copying[name]; ok && (want == -1 || want == argi) {
+				return false, ""
+			}
+			if name == "copy" && argi == 1 {
+				return false, ""
+			}
+			if name == "append" && argi > 0 && p.Ellipsis.IsValid() && argi == len(p.Args)-1 {
+				return false, "" // append(dst, x...) copies the elements
+			}
+			if _, ok := local[name]; ok {
+				taintParam(name, argi) // followed into the same-file callee
+				return false, ""
+			}
+			return true, "passed to " + name
+		case *ast.AssignStmt:
+			for _, l := range p.Lhs {
+				if l == child {
+					return false, "" // (re)definition
+				}
+			}
+			return true, "assigned to " + exprText(p.Lhs[0])
+		case *ast.ReturnStmt:
+			return true, "returned"
+		case *ast.KeyValueExpr, *ast.CompositeLit:
+			return true, "stored in a composite literal"
+		case *ast.SendStmt:
+			return true, "sent on a channel"
+		case *ast.IfStmt, *ast.ExprStmt, *ast.BlockStmt, *ast.SwitchStmt, *ast.CaseClause, *ast.Field:
+			return false, "" // *ast.Field: the declaration of a callback parameter
+		default:
+			return true, fmt.Sprintf("used in %T", p)
+		}
+	}
+	return false, ""
+}
+
+func extractBucketReads(repo string, rels []string) []readFact {
+	var out []readFact
+	for _, rel := range rels {
+		f := parse(repo, rel)
+		local := map[string]*ast.FuncDecl{}
+		for _, d := range f.Decls {
+			if fd, ok := d.(*ast.FuncDecl); ok && fd.Body != nil {
+				local[fd.Name.Name] = fd
+			}
+		}
+		// tainted names per function; parameters tainted through same-file calls are added until nothing changes
+		tainted := map[*ast.FuncDecl]map[string]bool{}
+		for _, d := range f.Decls {
+			if fd, ok := d.(*ast.FuncDecl); ok {
+				tainted[fd] = map[string]bool{}
+			}
+		}
+		paramName := func(fd *ast.FuncDecl, i int) string {
+			k := 0
+			for _, fl := range fd.Type.Params.List {
+				for _, n := range fl.Names {
+					if k == i {
+						return n.Name
+					}
+					k++
+				}
+			}
+			return ""
+		}
+		results := map[string]readFact{}
+		for pass := 0; pass < 4; pass++ {
+			changed := false
+			for _, d := range f.Decls {
+				fd, ok := d.(*ast.FuncDecl)
+				if !ok || fd.Body == nil {
+					continue
+				}
+				tset := tainted[fd]
+				// sources
+				ast.Inspect(fd.Body, func(n ast.Node) bool {
+					switch v := n.(type) {
+					case *ast.AssignStmt:
+						if len(v.Rhs) == 1 {
+							if c, ok := v.Rhs[0].(*ast.CallExpr); ok {
+								if s, ok := c.Fun.(*ast.SelectorExpr); ok && s.Sel.Name == "Get" && isBucketExpr(s.X) {
+									if id, ok := v.Lhs[0].(*ast.Ident); ok && !tset[id.Name] {
+										tset[id.Name] = true
+										changed = true
+									}
+								}
+							}
+						}
+					case *ast.CallExpr:
+						if s, ok := v.Fun.(*ast.SelectorExpr); ok && isBucketExpr(s.X) && len(v.Args) > 0 &&
+							(s.Sel.Name == "ForEach" || s.Sel.Name == "PrefixScan" || s.Sel.Name == "RangeScan") {
+							if fl, ok := v.Args[len(v.Args)-1].(*ast.FuncLit); ok {
+								for _, p := range fl.Type.Params.List {
+									for _, nm := range p.Names {
+										if nm.Name != "_" && !tset[nm.Name] {
+											tset[nm.Name] = true
+											changed = true
+										}
+									}
+								}
+							}
+						}
+					}
+					return true
+				})
+				// uses
+				name := fd.Name.Name
+				if r := recvName(fd); r != "" {
+					name = r + "." + name
+				}
+				var path []ast.Node
+				ast.Inspect(fd.Body, func(n ast.Node) bool {
+					if n == nil {
+						path = path[:len(path)-1]
+						return false
+					}
+					if id, ok := n.(*ast.Ident); ok && tset[id.Name] {
+						// a selector's field name is not a use of the variable
+						if len(path) > 0 {
+							if se, ok := path[len(path)-1].(*ast.SelectorExpr); ok && se.Sel == id {
+								path = append(path, n)
+								return true
+							}
+						}
+						al, how := classifyUse(id, path, local, func(fn string, i int) {
+							callee := local[fn]
+							if pn := paramName(callee, i); pn != "" && !tainted[callee][pn] {
+								tainted[callee][pn] = true
+								changed = true
+							}
+						})
+						key := rel + "|" + name + "|" + id.Name
+						cur, seen := results[key]
+						if !seen || (al && !cur.aliased) {
+							results[key] = readFact{rel, name, id.Name, al, how}
+						}
+					}
+					path = append(path, n)
+					return true
+				})
+			}
+			if !changed {
+				break
+			}
+		}
+		var keys []string
+		for k := range results {
+			keys = append(keys, k)
+		}
+		sort.Strings(keys)
+		for _, k := range keys {
+			out = append(out, results[k])
+		}
+	}
+	// the extractor must still see the reads the model talks about
+	need := map[string]bool{"plainPoint.ReadFrom": false, "binaryQuantizedPoint.ReadFrom": false, "productQuantizedPoint.ReadFrom": false,
+		"graphNode.ReadFrom": false, "setCacheItem.ReadFrom": false, "docCacheItem.ReadFrom": false, "newBinaryQuantizer": false, "newProductQuantizer": false}
+	for _, r := range out {
+		if _, ok := need[r.fn]; ok {
+			need[r.fn] = true
+		}
+	}
+	for fn, ok := range need {
+		if !ok {
+			die("no read of bucket memory found in %s (the extractor no longer matches the source)", fn)
+		}
+	}
+	return out
+}
+
 // ---------------------------------------------------------------- persisted parameters
 
 func constStr(f *ast.File, name string) string {
@@ -401,6 +701,37 @@ func main() {
 	fmt.Fprintf(&sb, "def textNumDocumentsKey : String := %q\n", constStr(txt, "numDocumentsKey"))
 	b("textFlushPutsNumDocuments", callsOnKey(method(txt, "indexText", "flush"), "Put", "numDocumentsKey"))
 	b("textInitGetsNumDocuments", callsOnKey(method(txt, "indexText", "initSize"), "Get", "numDocumentsKey"))
+	// persist order
+	flat := parse(*repo, "shard/index/flat/flat.go")
+	strList := func(xs []string) string {
+		var q []string
+		for _, x := range xs {
+			q = append(q, strconv.Quote(x))
+		}
+		return "[" + strings.Join(q, ", ") + "]"
+	}
+	vph, fph := phasesOf(method(vam, "IndexVamana", "insertUpdateDelete")), phasesOf(method(flat, "IndexFlat", "InsertUpdateDelete"))
+	if len(vph) == 0 || len(fph) == 0 {
+		die("no mutate / fit / flush call found in the index write paths")
+	}
+	sb.WriteString("\n/- persist order: mutate / fit / flush calls of the index write paths in program order -/\n")
+	fmt.Fprintf(&sb, "def vamanaWritePhases : List String := %s\n", strList(vph))
+	fmt.Fprintf(&sb, "def flatWritePhases : List String := %s\n", strList(fph))
+	// lifetimes of bucket memory
+	reads := extractBucketReads(*repo, []string{
+		"shard/vectorstore/plain.go", "shard/vectorstore/binary.go", "shard/vectorstore/product.go",
+		"shard/index/vamana/node.go", "shard/index/vamana/vamana.go", "shard/index/text/text.go", "shard/index/inverted/inverted.go",
+	})
+	sb.WriteString("\n/-- a variable holding a byte slice handed out by the storage layer (valid for the life of the\ntransaction only) and whether some use lets it escape un-copied -/\nstructure BucketRead where\n  file : String\n  fn : String\n  var : String\n  aliased : Bool\n  how : String\n  deriving Repr, DecidableEq\n\n")
+	sb.WriteString("def bucketReads : List BucketRead := [\n")
+	for i, r := range reads {
+		comma := ","
+		if i == len(reads)-1 {
+			comma = ""
+		}
+		fmt.Fprintf(&sb, "  { file := %q, fn := %q, var := %q, aliased := %v, how := %q }%s\n", r.file, r.fn, r.v, r.aliased, r.how, comma)
+	}
+	sb.WriteString("]\n")
 	sb.WriteString("\nend Sema.Gen.FactsC08\n")
 	if err := os.WriteFile(filepath.Join(*out, "FactsC08.lean"), []byte(sb.String()), 0o644); err != nil {
 		die("%v", err)
